@@ -163,6 +163,12 @@ N_itermut(a, e) ==
   [k \in Dom(a) |-> IF \E i \in 1..Len(e.ys) : e.ys[i].k = k
                     THEN WrittenC(e.ys[CHOOSE i \in 1..Len(e.ys) : e.ys[i].k = k]) ELSE a[k]]
 
+\* drain().take(n), then the guard is dropped: the n first yielded elements are distinct stored elements, as
+\* many as asked for (or all); whatever was consumed, the queue is empty afterwards
+F_drain(a, e) ==
+  T(NoDupSeq([i \in 1..Len(e.ys) |-> e.ys[i].k]) /\ \A i \in 1..Len(e.ys) : Lookup(a, e.ys[i].k) = <<Proj4(e.ys[i])>>, "drain_elem")
+  \cup T(Len(e.ys) = (IF e.n < Cardinality(Dom(a)) THEN e.n ELSE Cardinality(Dom(a))), "drain_count")
+
 \* ------------------------------------------------------------------ bulk construction
 \* pairs: sequence of elements [k, pay, r, t]
 LastIdx(p, k)  == CHOOSE i \in 1..Len(p) : p[i].k = k /\ \A j \in (i+1)..Len(p) : p[j].k # k
@@ -241,6 +247,7 @@ Judge(a, e) ==
     [] e.op = "iter_mut"           -> [f |-> F_itermut(a, e), n |-> N_itermut(a, e)]
     [] e.op = "extend"             -> [f |-> {}, n |-> N_extend(a, e)]
     [] e.op = "clear"              -> [f |-> {}, n |-> EmptyMap]
+    [] e.op = "drain"              -> [f |-> F_drain(a, e), n |-> EmptyMap]
     [] e.op \in {"reserve", "reserve_exact", "try_reserve", "try_reserve_exact", "shrink_to_fit"}
                                    -> [f |-> F_capacity(e), n |-> a]
     [] e.op = "ser"                -> [f |-> F_ser(a, e), n |-> a]
